@@ -1,5 +1,5 @@
 """C20 — reconciliation with blocks and preconfirmations.  TxPool.tla: BlockReconciles (included transactions leave,
-stale preconfirmations absent from the block are rolled back: outputs withdrawn, dependents evicted, resubmittable),
+stale preconfirmations absent from the block are rolled back: outputs withdrawn, dependents evicted, the tx id and its inputs no longer marked spent on its account = resubmittable),
 LatePreconfIsNoop, and InsertAdmits over the never-forgetting ghost of committed inputs ("inputs become
 unspendable"); judged by TLC on the states the real PoolWorker logged."""
 import txpool_common as tc
